@@ -113,13 +113,12 @@ def suffix_rule(ctx):
     f = ep[0]
     obs = []
     table = {}
+    # the match that maps the kind of external tag to its suffix, wherever it is written (a local, or directly the argument of Src(..))
     for n in sir.walk(f.node, into_items=True):
-        if n.get("k") == "local" and n["pat"].get("name") == "suffix" and n.get("init") is not None and n["init"].get("k") == "match":
-            for a in n["init"]["arms"]:
-                b = a["body"]
-                if b.get("k") == "lit":
-                    for v in sir.pat_variants(a["pat"]):
-                        table[v] = b["v"]
+        if n.get("k") == "match" and all(a["body"].get("k") == "lit" and a["body"].get("t") == "str" and a["body"]["v"].startswith(".") for a in n["arms"]) and len(n["arms"]) >= 2:
+            for a in n["arms"]:
+                for v in sir.pat_variants(a["pat"]):
+                    table[v] = a["body"]["v"]
     want = {"Include": ".wxml", "Import": ".wxml", "Script": ".wxs"}
     obs.append(ob("C13.suffix/table", table == want, ctx.where(f), "suffix per external tag kind: %s" % table))
     tk = {}
